@@ -29,7 +29,7 @@ contract TargetsDiscovery.ApplyConfig
            mapof(TargetsDiscovery.activeTargets) at {}, mapof(TargetsDiscovery.config) at {}
   loop 1 invariant fresh(newActiveTargets) && fresh(newDropTargets) && fresh(newCfg) && newActiveTargets != nil && newDropTargets != nil && newCfg != nil && newActiveTargets != newDropTargets
   loop 1 invariant m.activeTargets == old(m.activeTargets) && m.dropTargets == old(m.dropTargets) && m.config == old(m.config)
-  loop 1 invariant forall k in 0..idx1 :: (cfg.Config.ScrapeConfigs[k].JobName in newCfg
+  loop 1 invariant[C17] @kept_jobs_keep_their_targets forall k in 0..idx1 :: (cfg.Config.ScrapeConfigs[k].JobName in newCfg
         && (cfg.Config.ScrapeConfigs[k].JobName in m.activeTargets ==> (cfg.Config.ScrapeConfigs[k].JobName in newActiveTargets
               && newActiveTargets[cfg.Config.ScrapeConfigs[k].JobName] == m.activeTargets[cfg.Config.ScrapeConfigs[k].JobName]
               && newDropTargets[cfg.Config.ScrapeConfigs[k].JobName] == m.dropTargets[cfg.Config.ScrapeConfigs[k].JobName])))
@@ -88,13 +88,13 @@ contract supportInvalidLabelName
 contract targetsFromGroup
   requires tg != nil && cfg != nil
   ensures result1 == nil ==> fresh(result0) && (forall t in result0 :: t != nil && fresh(t) && t.ShardTarget != nil && fresh(t.ShardTarget) && t.PromTarget != nil && t.Job == cfg.JobName)
-  ensures[C15] @equal_entries_collapse_into_one result1 == nil ==> (forall a in 0..len(result0) :: forall b in 0..len(result0) :: a != b ==> result0[a].ShardTarget.Hash != result0[b].ShardTarget.Hash)
+  ensures[C15] @equal_entries_collapse_into_one result1 == nil ==> (forall a in 0..len(result0) :: forall b in 0..len(result0) :: (a != b && result0[a].PromTarget.gHasLabels && result0[b].PromTarget.gHasLabels) ==> result0[a].ShardTarget.Hash != result0[b].ShardTarget.Hash)
   ensures[C15] @hash_is_of_the_final_labels_and_url result1 == nil ==> (forall t in result0 :: t.ShardTarget.Hash == thash(t.PromTarget.gLabels, t.PromTarget.gURLStr))
   modifies gHashIdx, gPending, gPendingDropped, SDTargets.* at {}, target.Target.* at {}, github.com/prometheus/prometheus/scrape.Target.* at {}, net/url.URL.* at {}
   loop 1 invariant fresh(targets) && fresh($exists) && $exists != nil
-  loop 1 invariant forall t in targets :: t != nil && fresh(t) && allocated(t) && t.ShardTarget != nil && fresh(t.ShardTarget) && allocated(t.ShardTarget) && t.PromTarget != nil && t.Job == cfg.JobName && (t.ShardTarget.Hash in $exists) && $exists[t.ShardTarget.Hash]
-        && t.ShardTarget.Hash == thash(t.PromTarget.gLabels, t.PromTarget.gURLStr)
-  loop 1 invariant forall a in 0..len(targets) :: forall b in 0..len(targets) :: a != b ==> targets[a].ShardTarget.Hash != targets[b].ShardTarget.Hash
+  loop 1 invariant forall t in targets :: t != nil && fresh(t) && allocated(t) && t.ShardTarget != nil && fresh(t.ShardTarget) && allocated(t.ShardTarget) && t.PromTarget != nil && t.Job == cfg.JobName && fresh(t.PromTarget) && allocated(t.PromTarget) && (t.PromTarget.gHasLabels ==> ((t.ShardTarget.Hash in $exists) && $exists[t.ShardTarget.Hash]))
+  loop 1 invariant[C15] @hash_is_of_the_final_labels_and_url forall t in targets :: t.ShardTarget.Hash == thash(t.PromTarget.gLabels, t.PromTarget.gURLStr)
+  loop 1 invariant[C15] @equal_entries_collapse_into_one forall a in 0..len(targets) :: forall b in 0..len(targets) :: (a != b && targets[a].PromTarget.gHasLabels && targets[b].PromTarget.gHasLabels) ==> targets[a].ShardTarget.Hash != targets[b].ShardTarget.Hash
   loop 1 invariant forall h in $exists :: ($exists[h] ==> (0 <= gHashIdx[h] && gHashIdx[h] < len(targets) && targets[gHashIdx[h]].ShardTarget.Hash == h))
   atentry do gPending = nil
   loop 1 invariant[C17] @every_dropped_entry_is_kept (gPending != nil && gPendingDropped) ==> (len(targets) > 0 && targets[len(targets) - 1].PromTarget == gPending)
